@@ -3,7 +3,7 @@
    processBlock/deleteBlock batches, block cache). *)
 From Coq Require Import List NArith ZArith Bool.
 From LE Require Import Base.Lex Store.SMap Store.PebbleIter Store.PebbleIterProofs Store.DiffDB Store.DiffDBProofs
-  Store.DiffDBSpec Store.DiffDBRefine Store.Diff Chain.BlockStore Chain.BlockStoreProofs Chain.U32 Chain.Reorg Chain.History.
+  Store.DiffDBSpec Store.DiffDBRefine Store.Diff Chain.BlockStore Chain.BlockStoreProofs Chain.U32 Chain.Reorg Chain.History Chain.HistoryExample.
 Import ListNotations.
 Local Open Scope N_scope.
 
@@ -43,18 +43,39 @@ Theorem C05_staged_keys_prefixed : forall db root ops, sorted db -> wf_db db -> 
   forall x, In x (d_cache (fst (run db (init_state root) ops))) -> is_prefix root (fst x) = true.
 Proof. exact staged_keys_prefixed. Qed.
 
+(* PARTIAL (known finding c05:dup-tx): the full statements would quantify over ANY contents of a valid block.  The
+   theorems below carry the explicit hypothesis [fresh db (... block_keys b)], whose substantive part is: no
+   transaction id of the block is already stored (block ids, the height index entry, the events/diff records of a
+   new tip height are fresh on any valid chain).  The engine never rejects a block repeating a stored transaction
+   id, and removeBlock deletes txID->tx unconditionally: without the hypothesis the statement is false, see
+   C05_remove_inverts_save_refuted (reproduced on the real Executer by harness/cmd/c05e, record "edup"). *)
 (* removeBlock inverts saveBlock on every key outside the enumerated exceptions — the finalized-height marker,
    the temp record of that height, the event records pruned by saveBlock — when the block's ids are fresh *)
-Theorem C05_remove_inverts_save : forall db b events fh rt keep st k,
+Theorem C05_remove_inverts_save_partial : forall db b events fh rt keep st k,
   sorted db -> fresh db (block_keys b) ->
   exception (ev_bound fh (b_height b) keep) None [b_height b] k = false ->
   lookup (apply_writes (remove_block b st) (apply_writes (save_block db b events fh rt keep) db)) k = lookup db k.
 Proof. exact remove_inverts_save. Qed.
 
+(* witness: block b repeats transaction [9;9] of an earlier stored block; every other key of b is fresh; after
+   saveBlock + removeBlock the earlier block's transaction record is gone (and it is not an exception) *)
+Theorem C05_remove_inverts_save_refuted :
+  exists db b events fh rt keep st k,
+    sorted db /\ fresh db (filter (fun k' => negb (keqb k' k)) (block_keys b)) /\
+    exception (ev_bound fh (b_height b) keep) None [b_height b] k = false /\
+    lookup (apply_writes (remove_block b st) (apply_writes (save_block db b events fh rt keep) db)) k <> lookup db k.
+Proof.
+  exists [([4;0;0;0;1],[7;7]); ([5;7;7],[9;9]); ([6;9;9],[101]); ([27],[0;0;0;0])],
+         (Build_blk [8;8] 2 [100] [([9;9],[101])] None [102]), None, 0, false, (-1)%Z, false, [6;9;9].
+  split; [apply sortedb_sound; vm_compute; reflexivity|]. split.
+  - intros k0 Hin. vm_compute in Hin. repeat (destruct Hin as [<-|Hin]; [vm_compute; reflexivity|]). destruct Hin.
+  - split; [vm_compute; reflexivity|]. vm_compute. discriminate.
+Qed.
+
 (* the whole deleteBlock batch (RevertDiff + delete diff record + removeBlock) inverts the whole processBlock batch
    (Commit + diff record + pruning of finalized diffs + saveBlock), for every staged cache state, block contents,
    finality advance and flags; exceptions as above plus the pruned diff records *)
-Theorem C05_delete_inverts_apply : forall db c diff_enc prune b events fh rt keep st k,
+Theorem C05_delete_inverts_apply_partial : forall db c diff_enc prune b events fh rt keep st k,
   sorted db -> wf_db db -> Inv db c -> cache_pref [pfxState] c ->
   fresh db (kDiff (b_height b) :: block_keys b) ->
   exception (ev_bound fh (b_height b) keep) prune [b_height b] k = false ->
@@ -77,7 +98,7 @@ Theorem C05_temp_block_saved : forall db b, sorted db ->
 Proof. exact temp_block_saved. Qed.
 
 (* reorg confluence at batch level: databases equal outside a key set stay equal outside it under the same batch
-   (with C05_delete_inverts_apply: apply B, delete B, apply B' agrees with apply B' outside the exceptions,
+   (with C05_delete_inverts_apply_partial: apply B, delete B, apply B' agrees with apply B' outside the exceptions,
    provided B' produces the same batch — its staged reads only see consensus-store keys, which are restored) *)
 Theorem C05_same_batch_preserves_agreement : forall (W : list wr) db1 db2 (E : key -> bool), sorted db1 -> sorted db2 ->
   (forall k, E k = false -> lookup db1 k = lookup db2 k) ->
@@ -88,7 +109,7 @@ Proof. exact same_batch_preserves_agreement. Qed.
    far -> next staged operation).  Apply B, delete B, then execute and apply B': B' observes exactly the reads it
    observes when executed directly on the original database, and the two resulting databases agree on every key
    outside the exceptions of B.  ([wf_db db2]: the keys written by B are byte strings.) *)
-Theorem C05_reorg_confluence : forall fuel (p' : prog) db c diff_enc prune b events fh rt keep st
+Theorem C05_reorg_confluence_partial : forall fuel (p' : prog) db c diff_enc prune b events fh rt keep st
     diff_enc' prune' b' events' fh' rt',
   sorted db -> wf_db db -> Inv db c -> cache_pref [pfxState] c ->
   fresh db (kDiff (b_height b) :: block_keys b) -> prog_wf p' ->
@@ -132,12 +153,29 @@ Proof. exact run_prog_refines. Qed.
    [hist_ok]: keys are byte strings, ids are fresh at every apply, programs well formed, and the history on top of
    a block does not prune that block's diff record (= does not finalize it).  Then the final database agrees with
    the initial one on every key outside the union of the exceptions of the applied blocks. *)
-Theorem C05_history_restores : forall (encode : diff -> val) (decode : val -> option diff),
+Theorem C05_history_restores_partial : forall (encode : diff -> val) (decode : val -> option diff),
   (forall d, decode (encode d) = Some d) ->
   forall (keep : Z) (h : hist) (db db' : smap),
   sorted db -> hist_ok encode decode keep h db -> run_hist encode decode keep h db = Some db' ->
   forall k, exc_hist keep h k = false -> lookup db' k = lookup db k.
 Proof. exact history_restores. Qed.
+
+(* non-vacuity of C05_history_restores_partial: a concrete codec with a proved round trip, and a closed nested
+   history (apply B1 [tx, events, staged read+create+delete], apply B2 on top [assets, staged range read, create,
+   overwrite, create+delete], delete B2, delete B1 keeping it as temp block) that satisfies [hist_ok] and runs to
+   completion: the final database is the initial one plus the temp record *)
+Theorem C05_codec_roundtrip_instance : forall d, decode_diff (encode_diff d) = Some d.
+Proof. exact codec_roundtrip. Qed.
+
+Example C05_history_example :
+  hist_ok encode_diff decode_diff ex_keep ex_hist db0 /\
+  run_hist encode_diff decode_diff ex_keep ex_hist db0
+    = Some [([4;0;0;0;1],[7]); ([7;0;0;0;2],[102]); ([10;97],[1]); ([27],[0;0;0;1])] /\
+  do_apply encode_diff ex_keep a2 (do_apply encode_diff ex_keep a1 db0)
+    = [([3;8;8],[100]); ([3;8;9],[110]); ([4;0;0;0;1],[7]); ([4;0;0;0;2],[8;8]); ([4;0;0;0;3],[8;9]);
+       ([5;8;8],[9;9]); ([6;9;9],[101]); ([8;8;9],[111]); ([9;0;0;0;2],[104]); ([10;98],[6]); ([27],[0;0;0;1]);
+       ([51;0;0;0;2],[1;2;10;98;0;2;2;10;97;1;1]); ([51;0;0;0;3],[0;2;2;10;98;1;5;0])].
+Proof. exact history_example. Qed.
 
 (* cached tip: the block cache stays a non-empty prefix of the chain in the database, so LastBlock() is the
    database tip after every AddBlock / (repaired) RemoveBlock *)
@@ -148,6 +186,12 @@ Proof. exact cached_tip_after_add. Qed.
 Theorem C05_cached_tip_after_remove : forall c chain x,
   cache_ok c (x :: chain) -> cache_ok (bc_remove c chain) chain /\ bc_last (bc_remove c chain) = hd_error chain.
 Proof. exact cached_tip_after_remove. Qed.
+
+(* restart: PrepareCache (repaired: never reads below the genesis height) rebuilds the cache as the newest
+   maxSize blocks of the contiguous chain in the database, so the cached tip is the database tip *)
+Theorem C05_cached_tip_after_prepare : forall maxSize chain, (1 <= maxSize)%nat -> contig chain ->
+  exists c, bc_prepare maxSize chain = Some c /\ cache_ok c chain /\ bc_last c = hd_error chain.
+Proof. exact cached_tip_after_prepare. Qed.
 
 (* the pop of the unrepaired code alone loses the tip (witness) *)
 Theorem C05_pop_without_refill_refuted :
